@@ -842,8 +842,11 @@ def fastpath_coherent(ctx):
                   "functions with the same id: a still-referenced older definition keeps passing the fast path and is served values computed by the new code" % fn._qualname)
     # the fast path itself
     ck = M(ctx, "MemorizedFunc._check_previous_func_code")
-    fast = [n for n in nodes_of_type(ck, ast.If) if isinstance(n.test, ast.Compare) and "_FUNCTION_HASHES" in unparse(n.test) and isinstance(n.test.ops[0], ast.Eq)]
-    ctx.check(bool(fast) and any(call_name(c) == "self._hash_func" for c in calls_in(ck)), fast[0] if fast else ck, "fast path compares the recorded (id, hash, code hash) with the current one")
+    fast = []
+    for q_, fn_ in ctx.repo.mod(MEM).funcs.items():
+        if q_.startswith("MemorizedFunc.") and any(call_name(c) == "self._hash_func" for c in calls_in(fn_)):
+            fast += [n for n in ast.walk(fn_) if isinstance(n, ast.Compare) and len(n.ops) == 1 and isinstance(n.ops[0], ast.Eq) and "_FUNCTION_HASHES" in unparse(n)]
+    ctx.check(bool(fast), fast[0] if fast else ck, "fast path compares the recorded (id, hash, code hash) with the current one")
     mc = M(ctx, "Memory.clear")
     ctx.check(any(call_name(c) == "_FUNCTION_HASHES.clear" for c in calls_in(mc)), mc, "Memory.clear() drops the whole fast-path table", "Memory.clear() leaves stale fast-path entries")
     gmc = cfg_of(mc)
